@@ -42,7 +42,7 @@ def tracing():
         Function.__call__ = orig
 
 
-class Timeout(Exception):
+class Timeout(BaseException):
     pass
 
 
